@@ -36,6 +36,94 @@ pub(crate) fn point(name: &str) -> crate::error::Result {
     Ok(())
 }
 
+/// Event log for trace validation. Enabled when `WILD_VERIF_LOG=<path>` is set. Events are appended while the
+/// caller holds the lock that protects the state the event describes (or, for bare atomics, while the
+/// log mutex itself is held across the operation), so the log order is a linearisation of those
+/// critical sections.
+pub(crate) mod evlog {
+    use std::sync::Mutex;
+    use std::sync::MutexGuard;
+    use std::sync::OnceLock;
+
+    static LOG: Mutex<Vec<(u8, u64, u64)>> = Mutex::new(Vec::new());
+
+    pub(crate) fn enabled() -> bool {
+        static ENABLED: OnceLock<bool> = OnceLock::new();
+        *ENABLED.get_or_init(|| std::env::var_os("WILD_VERIF_LOG").is_some())
+    }
+
+    pub(crate) fn ev(kind: u8, a: u64, b: u64) {
+        if enabled() {
+            LOG.lock().unwrap().push((kind, a, b));
+        }
+    }
+
+    /// Holds the log mutex; used to make `atomic operation + append` one step.
+    pub(crate) struct Held(Option<MutexGuard<'static, Vec<(u8, u64, u64)>>>);
+
+    pub(crate) fn hold() -> Held {
+        Held(enabled().then(|| LOG.lock().unwrap()))
+    }
+
+    impl Held {
+        pub(crate) fn push_and_release(mut self, kind: u8, a: u64, b: u64) {
+            if let Some(g) = self.0.as_mut() {
+                g.push((kind, a, b));
+            }
+        }
+    }
+
+    /// Appends the events collected so far to the log file as `phase kind a b` lines and clears them.
+    pub(crate) fn dump(phase: &str) {
+        if !enabled() {
+            return;
+        }
+        let Some(path) = std::env::var_os("WILD_VERIF_LOG") else {
+            return;
+        };
+        let events = std::mem::take(&mut *LOG.lock().unwrap());
+        let mut out = String::new();
+        for (k, a, b) in events {
+            out.push_str(&format!("{phase} {k} {a} {b}\n"));
+        }
+        out.push_str(&format!("{phase} 255 0 0\n"));
+        use std::io::Write as _;
+        if let Ok(mut f) = std::fs::OpenOptions::new().create(true).append(true).open(path) {
+            let _ = f.write_all(out.as_bytes());
+        }
+    }
+}
+
+/// Schedule perturbation: with `WILD_VERIF_SCHED_SEED=<n>` set, yields / spins pseudo-randomly at the
+/// instrumented sites so that narrow interleavings become common.
+pub(crate) fn perturb(site: u64) {
+    use std::sync::OnceLock;
+    use std::sync::atomic::AtomicU64;
+    use std::sync::atomic::Ordering;
+    static SEED: OnceLock<Option<u64>> = OnceLock::new();
+    static STATE: AtomicU64 = AtomicU64::new(0);
+    let Some(seed) = *SEED.get_or_init(|| {
+        std::env::var("WILD_VERIF_SCHED_SEED").ok().and_then(|s| s.parse().ok())
+    }) else {
+        return;
+    };
+    let n = STATE.fetch_add(0x9E37_79B9_7F4A_7C15, Ordering::Relaxed);
+    let mut x = n ^ seed.wrapping_mul(0xD6E8_FEB8_6659_FD93) ^ site.wrapping_mul(0xA24B_AED4_963E_E407);
+    x ^= x >> 32;
+    x = x.wrapping_mul(0xD6E8_FEB8_6659_FD93);
+    x ^= x >> 29;
+    match x % 8 {
+        0 | 1 => std::thread::yield_now(),
+        2 => {
+            for _ in 0..(x >> 8) % 2000 {
+                std::hint::spin_loop();
+            }
+        }
+        3 => std::thread::sleep(std::time::Duration::from_micros((x >> 8) % 200)),
+        _ => {}
+    }
+}
+
 pub mod alignment {
     use crate::alignment::Alignment;
 
